@@ -145,6 +145,64 @@ func init() {
 		} else {
 			c.Fail("C35c/SelectProviderWithStats/draw=rand·total,pick=first-cumulative>=draw", c.P.Pos(sel.Pos()), "the weighted draw is no longer rand·Σweights compared against the running sum of the same weights")
 		}
+		c.Rule("C35d always selects when it can: ChooseProviderWithStats and ChooseBestProviderWithStats return without a provider only under len(CalculateProviderScores(allAddresses, ignoredProviders, …)#0) == 0, and otherwise return exactly SelectProviderWithStats' choice from those scores")
+		for _, name := range []string{"ChooseProviderWithStats", "ChooseBestProviderWithStats"} {
+			fn := c.Fn("protocol/provideroptimizer.ProviderOptimizer." + name)
+			if fn == nil {
+				continue
+			}
+			for _, r := range c.AllReturns(fn) {
+				ret := r.Instr.(*ssa.Return)
+				if ret.Block() == fn.Recover {
+					continue
+				}
+				v := RetVal(ret, 0)
+				empty := false
+				if sl, ok := v.(*ssa.Slice); ok {
+					if a, ok := sl.X.(*ssa.Alloc); ok && strings.Contains(a.Type().String(), "[0]string") {
+						empty = true
+					}
+				}
+				if strings.Contains(ir.Desc(v), "[0]string") || ir.Desc(v) == "nil" {
+					empty = true
+				}
+				facts := ir.GuardFacts(ret)
+				if empty {
+					okEmpty := false
+					for _, f := range facts {
+						if strings.HasPrefix(f, "(call(builtin:len)(call("+wsK+"CalculateProviderScores)(") && strings.Contains(f, ".weightedSelector,param#1,param#2,") && strings.HasSuffix(f, "#0) == const(0))") {
+							okEmpty = true
+						}
+					}
+					if okEmpty {
+						c.OK("C35d/"+name+"/no-provider-only-when-no-candidate", c.P.InstrPos(ret), "")
+					} else {
+						c.Fail("C35d/"+name+"/no-provider-only-when-no-candidate", c.P.InstrPos(ret), "returns no provider without the scored candidate list being empty (e.g. by comparing set sizes instead of intersecting): a selectable provider with QoS data is not selected")
+					}
+					continue
+				}
+				// non-empty: the selector's choice
+				okSel := false
+				if sl, ok := v.(*ssa.Slice); ok {
+					if a, ok := sl.X.(*ssa.Alloc); ok && a.Referrers() != nil {
+						for _, rr := range *a.Referrers() {
+							if ia, ok := rr.(*ssa.IndexAddr); ok {
+								walkStores(ia, func(x ssa.Value) {
+									if strings.HasPrefix(ir.Desc(x), "call("+wsK+"SelectProviderWithStats)(") && strings.HasSuffix(ir.Desc(x), "#0") {
+										okSel = true
+									}
+								})
+							}
+						}
+					}
+				}
+				if okSel {
+					c.OK("C35d/"+name+"/returns-the-selector's-choice", c.P.InstrPos(ret), "")
+				} else {
+					c.Fail("C35d/"+name+"/returns-the-selector's-choice", c.P.InstrPos(ret), "returns "+trunc(ir.Desc(v), 100)+" instead of the weighted selector's choice")
+				}
+			}
+		}
 		c.NotCovered("proportionality within statistical tolerance; monotonicity of each normalise* function; floating-point corner cases; provider_optimizer.go's tiering around the selector")
 	})
 
@@ -205,6 +263,62 @@ func init() {
 		}
 		if nr < 4 {
 			c.Undecided("C30a: expected four returns in forkChanged, found %d", nr)
+		}
+		c.Rule("C30b a failed hash fetch aborts the update: in readHashes the error outcome of FetchBlockHashByNum reaches no successful return; C30c the kept window: replaceBlocksQueue keeps blocksQueue[blocksQueueStartIndex:blocksQueueEndIndex] (its own index parameters) followed by newBlocksQueue[newQueueStartIndex:], and the whole new queue when nothing overlaps")
+		if rh := c.Fn("protocol/chaintracker.ChainTracker.readHashes"); rh != nil {
+			ies := c.IfsMatching(rh, ErrNonNil("invoke:protocol/chaintracker.IChainFetcherWrapper.FetchBlockHashByNum"))
+			if len(ies) == 0 {
+				ies = c.IfsMatching(rh, FactHas("fetch-error", "FetchBlockHashByNum)(", "#1 != nil)"))
+			}
+			if len(ies) != 1 {
+				c.Undecided("C30b: expected one error test of FetchBlockHashByNum in readHashes, found %d", len(ies))
+			}
+			for _, ie := range ies {
+				if ok, where := c.EdgeCannotReach(ie, c.SuccessReturns(rh)); ok {
+					c.OK("C30b/readHashes/fetch-error=>update-aborted", c.P.InstrPos(ie.If), "")
+				} else {
+					c.Fail("C30b/readHashes/fetch-error=>update-aborted", c.P.InstrPos(ie.If), "after a failed hash fetch readHashes can still return overlap indexes ("+where+"): stored hashes that were not compared with the node are kept as if validated")
+				}
+			}
+		}
+		if rq := c.Fn("protocol/chaintracker.ChainTracker.replaceBlocksQueue"); rq != nil {
+			n := 0
+			ir.EachInstr(rq, func(in ssa.Instruction) {
+				st, ok := in.(*ssa.Store)
+				if !ok {
+					return
+				}
+				fa, ok := st.Addr.(*ssa.FieldAddr)
+				if !ok || fieldNameOfAddr(fa) != "blocksQueue" {
+					return
+				}
+				n++
+				d := ir.DescN(st.Val, 10)
+				switch {
+				case d == "param#4":
+					c.OK("C30c/replaceBlocksQueue/no-overlap=>whole-new-queue", c.P.InstrPos(st), "")
+				case strings.HasPrefix(d, "call(builtin:append)(") && strings.Contains(d, "recv.blocksQueue"):
+					// slice bounds: old[start:end], new[newStart:]
+					okBounds := false
+					if call, _ := callOfValue(st.Val); call != nil {
+						if sl, isSl := call.Call.Args[0].(*ssa.Slice); isSl && sl.Low != nil && sl.High != nil && ir.Desc(sl.Low) == "param#2" && ir.Desc(sl.High) == "param#3" {
+							if s2, isSl2 := call.Call.Args[1].(*ssa.Slice); isSl2 && s2.Low != nil && s2.High == nil && ir.Desc(s2.Low) == "param#1" && ir.Desc(s2.X) == "param#4" {
+								okBounds = true
+							}
+						}
+					}
+					if okBounds {
+						c.OK("C30c/replaceBlocksQueue/kept-window=old[start:end]+new[newStart:]", c.P.InstrPos(st), "")
+					} else {
+						c.Fail("C30c/replaceBlocksQueue/kept-window=old[start:end]+new[newStart:]", c.P.InstrPos(st), "the queue is rebuilt from "+trunc(d, 160))
+					}
+				default:
+					c.Fail("C30c/replaceBlocksQueue/kept-window=old[start:end]+new[newStart:]", c.P.InstrPos(st), "the queue is rebuilt from "+trunc(d, 160)+", not from the overlap window found by readHashes followed by the newly fetched blocks")
+				}
+			})
+			if n != 2 {
+				c.Undecided("C30c: expected two assignments of blocksQueue in replaceBlocksQueue, found %d", n)
+			}
 		}
 		c.NotCovered("everything else in the property: latest block equality, the number and contiguity of stored hashes, their equality with the node's hashes after reorganisations, block-data query ranges")
 	})
